@@ -484,6 +484,12 @@ func (f *frame) execUnOp(x *ssa.UnOp) {
 	c := f.c
 	switch x.Op {
 	case token.MUL: // load
+		if g, isGlobal := x.X.(*ssa.Global); isGlobal && c.eng.immutableGlobal(g) {
+			v := c.globalValue(g, x.Type())
+			c.assume(c.typeInv(v, x.Type(), c.nalloc(f.entry), 0))
+			f.vals[x] = v
+			return
+		}
 		pv := f.get(x.X)
 		a := f.addrOfPtr(pv, x.X.Type())
 		if t, ok := pv.(Term); ok {
